@@ -216,8 +216,20 @@ func Under_score@() int {
 	return my_var + 1
 }`},
 	{"redundant_type", `
-// V@ is a variable.
-var V@ int = 1`},
+func F@() (int, bool) {
+	var n int = 1
+	var ok bool = true
+	return n, ok
+}`},
+	{"receiver_names", `
+// N@ is a number.
+type N@ int
+
+// One returns 1.
+func (x N@) One() int { return 1 }
+
+// Two returns 2.
+func (y N@) Two() int { return 2 }`},
 	{"not_not", `
 func F@(b bool) bool {
 	return !!b
@@ -267,8 +279,6 @@ func header(prefix string, doc int) []string {
 	switch doc {
 	case 0:
 		ls = append(ls, "// Package p is a generated test package.")
-	case 1:
-		ls = append(ls, "// This file holds more generated code.", "")
 	}
 	ls = append(ls, "package p", "",
 		"import (", "\t\"errors\"", "\t\"fmt\"", "\t\"strings\"", ")", "",
@@ -507,8 +517,24 @@ type genFile struct {
 	places []string
 }
 
+// rng draws an integer of [lo, hi] with (nearly) equal probabilities. rapid's own
+// integer generators strongly prefer small values, which is right for sizes but
+// wrong for picking among alternatives, so a 64-bit draw is mixed first.
+func rng(rt *rapid.T, label string, lo, hi int) int {
+	if hi <= lo {
+		return lo
+	}
+	v := rapid.Uint64().Draw(rt, label)
+	v ^= v >> 30
+	v *= 0xbf58476d1ce4e5b9
+	v ^= v >> 27
+	v *= 0x94d049bb133111eb
+	v ^= v >> 31
+	return lo + int(v%uint64(hi-lo+1))
+}
+
 func pick[T any](rt *rapid.T, label string, xs []T) T {
-	return xs[rapid.IntRange(0, len(xs)-1).Draw(rt, label)]
+	return xs[rng(rt, label, 0, len(xs)-1)]
 }
 
 func distinct(xs []string) []string {
@@ -533,7 +559,7 @@ func catPrefix(id string) string {
 }
 
 func mixCase(rt *rapid.T, id string) string {
-	switch rapid.IntRange(0, 2).Draw(rt, "casekind") {
+	switch rng(rt, "casekind", 0, 2) {
 	case 0:
 		return strings.ToLower(id)
 	case 1:
@@ -547,7 +573,7 @@ func mixCase(rt *rapid.T, id string) string {
 }
 
 // genName draws one check name and its kind label.
-func genName(rt *rapid.T, hot, fileCodes []string, disabled []string) (string, string) {
+func genName(rt *rapid.T, hot, fileCodes []string, disabled []string, first bool) (string, string) {
 	base := ""
 	if len(hot) > 0 {
 		base = pick(rt, "hotid", hot)
@@ -556,10 +582,13 @@ func genName(rt *rapid.T, hot, fileCodes []string, disabled []string) (string, s
 	} else {
 		base = "SA4000"
 	}
-	if base == "U1000" && len(fileCodes) > 0 && rapid.IntRange(0, 2).Draw(rt, "avoidU") > 0 {
+	if base == "U1000" && len(fileCodes) > 0 && rng(rt, "avoidU", 0, 2) > 0 {
 		base = pick(rt, "fileid", fileCodes)
 	}
-	k := rapid.IntRange(0, 99).Draw(rt, "namekind")
+	k := rng(rt, "namekind", 0, 99)
+	if first && len(hot) > 0 && k >= 58 && rng(rt, "rematch", 0, 1) == 0 {
+		k = rng(rt, "namekind2", 0, 57) // one of the kinds that name the hinted check
+	}
 	switch {
 	case k < 24:
 		return base, "exact"
@@ -569,7 +598,7 @@ func genName(rt *rapid.T, hot, fileCodes []string, disabled []string) (string, s
 		return "*", "star"
 	case k < 50:
 		p := catPrefix(base)
-		switch rapid.IntRange(0, 2).Draw(rt, "globkind") {
+		switch rng(rt, "globkind", 0, 2) {
 		case 0:
 			return p + "*", "cat_glob"
 		case 1:
@@ -633,24 +662,24 @@ var nonDefaultIDs []string // filled by the catalogue (oracle_test.go)
 func genCase(rt *rapid.T, hints map[int][]hint, nvariants int) (*Case, error) {
 	c := &Case{}
 	// ---- base package
-	nsn := rapid.IntRange(7, 12).Draw(rt, "nsnippets")
+	nsn := rng(rt, "nsnippets", 7, 11)
 	var snA []int
 	for i := 0; i < nsn; i++ {
-		snA = append(snA, rapid.IntRange(0, len(snippets)-1).Draw(rt, "snippet"))
+		snA = append(snA, rng(rt, "snippet", 0, len(snippets)-1))
 	}
-	twin := rapid.Bool().Draw(rt, "twinfile")
+	twin := rng(rt, "twinfile", 0, 9) < 4
 	snB := snA
 	if !twin {
 		snB = nil
-		nb := rapid.IntRange(3, 8).Draw(rt, "nsnippetsB")
+		nb := rng(rt, "nsnippetsB", 2, 5)
 		for i := 0; i < nb; i++ {
-			snB = append(snB, rapid.IntRange(0, len(snippets)-1).Draw(rt, "snippetB"))
+			snB = append(snB, rng(rt, "snippetB", 0, len(snippets)-1))
 		}
 	}
-	docB := 2 // no comment before the package clause of b.go
-	if !twin && rapid.Bool().Draw(rt, "bcomment") {
-		docB = 1
-	}
+	// b.go has no comment before its package clause (a free-standing comment there would be
+	// merged with a directive inserted below it into a malformed package comment: ST1000), or,
+	// as a twin, the same package comment as a.go
+	docB := 2
 	if twin {
 		docB = 0 // identical line numbers in both files
 	}
@@ -694,7 +723,7 @@ func genCase(rt *rapid.T, hints map[int][]hint, nvariants int) (*Case, error) {
 
 	// ---- check selection
 	var disabled []string
-	switch m := rapid.IntRange(0, 99).Draw(rt, "checksmode"); {
+	switch m := rng(rt, "checksmode", 0, 99); {
 	case m < 38:
 		c.Checks = ""
 		disabled = nonDefaultIDs
@@ -724,13 +753,13 @@ func genCase(rt *rapid.T, hints map[int][]hint, nvariants int) (*Case, error) {
 			if x == "U1000" {
 				continue
 			}
-			if rapid.IntRange(0, 2).Draw(rt, "selcheck") > 0 {
+			if rng(rt, "selcheck", 0, 2) > 0 {
 				sel = append(sel, x)
 			} else {
 				disabled = append(disabled, x)
 			}
 		}
-		if rapid.IntRange(0, 3).Draw(rt, "selU") > 0 {
+		if rng(rt, "selU", 0, 3) > 0 {
 			sel = append(sel, "U1000")
 		}
 		if len(sel) == 0 {
@@ -739,7 +768,7 @@ func genCase(rt *rapid.T, hints map[int][]hint, nvariants int) (*Case, error) {
 		c.Checks = strings.Join(sel, ",")
 	}
 	c.ChecksVia = "flag"
-	if c.Checks != "" && rapid.IntRange(0, 3).Draw(rt, "viaconf") == 0 {
+	if c.Checks != "" && rng(rt, "viaconf", 0, 3) == 0 {
 		c.ChecksVia = "conf"
 	}
 
@@ -747,22 +776,52 @@ func genCase(rt *rapid.T, hints map[int][]hint, nvariants int) (*Case, error) {
 	c.Variants = append(c.Variants, Directive{Kind: "", Place: "control_copy"})
 	for v := 0; v < nvariants; v++ {
 		gf := gfs[0]
-		if rapid.IntRange(0, 3).Draw(rt, "infileB") == 0 {
+		if rng(rt, "infileB", 0, 3) == 0 {
 			gf = gfs[1]
 		}
 		d := Directive{File: gf.name, Kind: "ignore"}
-		fileIgnore := rapid.IntRange(0, 3).Draw(rt, "fileignore") == 0
+		fileIgnore := rng(rt, "fileignore", 0, 3) == 0
 		if fileIgnore {
 			d.Kind = "file-ignore"
 		}
-		// placement: a kind first (so that rare kinds are not drowned by statements), then a site
+		// placement: 10% any line; 50% driven by a line that (per the hints) carries a problem;
+		// else a placement kind first (so that rare kinds are not drowned by statements), then a site
 		var cd cand
-		if rapid.IntRange(0, 9).Draw(rt, "anyline") == 0 {
-			cd = cand{Place: "any_line", Line: rapid.IntRange(1, len(gf.lines)+1).Draw(rt, "line"), Trailing: rapid.Bool().Draw(rt, "trailing")}
+		var hotLines []int
+		for l := range gf.hot {
+			hotLines = append(hotLines, l)
+		}
+		sort.Ints(hotLines)
+		switch r := rng(rt, "placemode", 0, 99); {
+		case r < 7:
+			cd = cand{Place: "any_line", Line: rng(rt, "line", 1, len(gf.lines)+1), Trailing: rapid.Bool().Draw(rt, "trailing")}
 			if cd.Trailing && cd.Line > len(gf.lines) {
 				cd.Line = len(gf.lines)
 			}
-		} else {
+		case r < 68 && len(hotLines) > 0:
+			// prefer lines with a second check on the same line or a problem on a neighbouring line
+			var rich []int
+			for _, l := range hotLines {
+				if len(distinct(gf.hot[l])) > 1 || len(gf.hot[l-1]) > 0 || len(gf.hot[l+1]) > 0 {
+					rich = append(rich, l)
+				}
+			}
+			from := hotLines
+			if len(rich) > 0 && rng(rt, "richline", 0, 9) < 6 {
+				from = rich
+			}
+			l := pick(rt, "hotline", from)
+			var sites []cand
+			for _, x := range gf.cands {
+				if (!x.Trailing && x.Line == l) || (x.Trailing && x.Place == "prev_line_trailing" && x.Line == l-1) {
+					sites = append(sites, x)
+				}
+			}
+			if len(sites) == 0 {
+				sites = []cand{{Place: "above_problem_line", Line: l}}
+			}
+			cd = pick(rt, "site", sites)
+		default:
 			places := gf.places
 			if fileIgnore && rapid.Bool().Draw(rt, "fileplaces") {
 				places = []string{"above_package", "file_top", "eof", "after_imports"}
@@ -780,7 +839,7 @@ func genCase(rt *rapid.T, hints map[int][]hint, nvariants int) (*Case, error) {
 			if len(sites) == 0 {
 				sites = gf.cands
 			}
-			if len(hotSites) > 0 && rapid.IntRange(0, 3).Draw(rt, "preferhot") > 0 {
+			if len(hotSites) > 0 && rng(rt, "preferhot", 0, 3) > 0 {
 				sites = hotSites
 			}
 			cd = pick(rt, "site", sites)
@@ -803,18 +862,18 @@ func genCase(rt *rapid.T, hints map[int][]hint, nvariants int) (*Case, error) {
 			hot = gf.codes
 		}
 		n := 1
-		switch x := rapid.IntRange(0, 9).Draw(rt, "nnames"); {
+		switch x := rng(rt, "nnames", 0, 9); {
 		case x >= 9:
 			n = 3
 		case x >= 6:
 			n = 2
 		}
 		for i := 0; i < n; i++ {
-			name, kind := genName(rt, distinct(hot), gf.codes, disabled)
+			name, kind := genName(rt, distinct(hot), gf.codes, disabled, i == 0)
 			d.Names = append(d.Names, name)
 			d.ListKind = append(d.ListKind, kind)
 		}
-		if rapid.IntRange(0, 6).Draw(rt, "noreason") == 0 {
+		if rng(rt, "noreason", 0, 6) == 0 {
 			d.Reason = ""
 		} else {
 			d.Reason = pick(rt, "reason", []string{"reason", "deliberate, see the design document", "x"})
